@@ -72,6 +72,10 @@ HIST_STMTS = [
     'class p:\n    """class named like the package"""\n    def m(self): pass',
     'class m1:\n    pass',
     'A.__doc__ = "late doc"',
+    # members whose own name contains a dot (the builder names property setters `x.setter`) next to a superseded `x`
+    'class A:\n    @property\n    def x(self): return 1\n    @x.setter\n    def x(self, v): pass\n    @x.deleter\n    def x(self): pass\n    def x(self): pass',
+    'class B:\n    @property\n    def m(self): return 1\n    @m.setter\n    def m(self, v): pass\n    m = 2\n    \"\"\"m doc\"\"\"\n    @property\n    def m(self): return 3\n    @m.setter\n    def m(self, v): pass',
+    'class C:\n    if True:\n        @property\n        def x(self): return 1\n        @x.setter\n        def x(self, v): pass\n    if True:\n        @property\n        def x(self): return 2\n        @x.setter\n        def x(self, v): pass',
 ]
 MODNAMES = ['m1', 'm2', 'm3', '_m4', 'p']
 
